@@ -14,7 +14,8 @@ HARD_TIMEOUT = 900
 TAGGED = True
 SHARD = 60
 TABLE_DEPS = ["opt_binops", "opt_unaryops", "opt_compareops", "opt_isops", "opt_terminators",
-              "opt_expr_droppable", "opt_visitors", "opt_ctx_openers", "opt_contains_swapped", "opt_is_uses_eq"]
+              "opt_expr_droppable", "opt_visitors", "opt_ctx_openers", "opt_contains_swapped", "opt_is_uses_eq",
+              "opt_try_keeps_finally"]
 WORKER_ENV = {"VERIF_CASE_SOFT_TIMEOUT": "600"}
 RULE = ("every top-level form (ast.Module) the real optimizer visits while the listed namespaces are compiled from "
         "source (quick: basilisp.core and four small namespaces; thorough: every bundled namespace), plus the forms of "
